@@ -1239,6 +1239,8 @@ class Converter:
             # which instruction defines the condition test.id
         else:
             self._fail(loop_stmt, f"Unexpected loop type {type(loop_stmt)!r}.")
+        if loop_stmt.orelse:
+            self._fail(loop_stmt, "The else clause of a loop is not supported.")
         # analyze loop body
         exposed_uses = self.analyzer.exposed_uses(loop_stmt.body)
         vars_def_in_loop = self.analyzer.assigned_vars(loop_stmt.body)
